@@ -1,6 +1,225 @@
+import Proofs.C19.Fuel
+import Proofs.C19.Wire
 /-!
-# C19 — property theorems only (see DESIGN.md §3 C19).
+# C19 — hostile input: parsers are total, read exactly what they return, and build nothing the
+input did not pay for
+
+Property theorems only (DESIGN §3 C19).  What a proof can say about "never a hang, never an unbounded
+recursion, never more read than needed, never a list bigger than the limits" is said here, on the
+parser MODELS (owned by C05 / C08, tied to the code by their correspondence streams and by this
+property's `pos.*` streams) and on the generic models of `Model/C19/Fuel.lean`; the limits are
+`Gen.Limits`, regenerated from /repo on every run.  Every model parser is a total Lean function:
+Lean's termination checker is the proof that it cannot hang.  The Python exception CLASS, the
+interpreter's recursion limit and wall-clock time are not Lean objects: those are observed by
+`harness/c19.py` only.
 -/
 namespace Props.C19
+open Btc Btc.Wire Btc.Fuel
+
+/-! ## T1 — exact consumption; the rest is a proper suffix; fuel = input length suffices -/
+
+/-- for every lawful wire class: the bytes a parser reads are exactly the serialization of what it
+    returns, what it leaves is exactly the rest (so a caller's stream stands on the byte after the
+    object: nothing more was read), and the bytes read are as many as the reported size. -/
+theorem parse_reads_exactly_the_object {α : Type} (c : Codec α) (h : Lawful c) (b : Bytes) (t : α)
+    (rest : Bytes) (hp : c.parse b = .ok (t, rest)) :
+    b = c.ser t ++ rest ∧ c.size t + rest.length = b.length :=
+  (h.consumed b t rest hp).2
+
+/-- each wire parser reads at least one byte whenever it answers: parsing object after object off a
+    finite stream terminates (the rest is a PROPER suffix). -/
+theorem wire_parsers_make_progress :
+    (∀ m, Consuming (varInt m)) ∧ Consuming varBytes ∧ Consuming outPoint ∧ Consuming witness ∧
+    Consuming txIn ∧ Consuming txOut ∧ Consuming tx ∧ Consuming blockHeader ∧ Consuming block ∧
+    Consuming xkey ∧ Consuming Psbt.record :=
+  ⟨fun m => consuming_of (lawful_varInt m) (nonEmpty_varInt m),
+   consuming_of lawful_varBytes nonEmpty_varBytes, consuming_of lawful_outPoint nonEmpty_outPoint,
+   consuming_of lawful_witness nonEmpty_witness, consuming_of lawful_txIn nonEmpty_txIn,
+   consuming_of lawful_txOut nonEmpty_txOut, consuming_of lawful_tx nonEmpty_tx,
+   consuming_of lawful_blockHeader nonEmpty_blockHeader, consuming_of lawful_block nonEmpty_block,
+   consuming_of lawful_xkey nonEmpty_xkey, Psbt.consuming_record⟩
+
+def exTx : Tx := ⟨2, 9, [⟨⟨List.replicate 32 7, 1⟩, [0x51], 0xFFFFFFFE, [[1, 2], []]⟩], [⟨-1, []⟩]⟩
+example : tx.parse (Tx.ser true exTx ++ [9, 9]) = .ok (exTx, [9, 9]) := by decide
+
+/-- the generic loop `while stream: item = parse(stream)`: when the item parser makes progress, any
+    fuel ≥ the length of the input gives the same answer (fuel is never the reason the loop stops),
+    the loop stops exactly where the item parser refuses, and it returns no more items than bytes. -/
+theorem iterated_parsing_is_total {σ α : Type} (p : Step σ α) (hc : Fuel.Consuming p) (s : List σ)
+    (fuel : Nat) (h : s.length ≤ fuel) :
+    many p fuel s = manyAll p s ∧ p (manyAll p s).2 = none ∧
+      (manyAll p s).1.length + (manyAll p s).2.length ≤ s.length :=
+  ⟨many_fuel p hc s fuel h, many_stops p hc s.length s (Nat.le_refl _), many_length p hc s.length s⟩
+
+/-- script decode (C08's model of `op_code_spans` / Core's `GetOp` walk): the fuel `len(script)` always
+    suffices; the instructions read are exactly the bytes before the rest, and the walk stops only
+    where no instruction can be read (end of script, or a push running past it). -/
+theorem script_walk_is_total_and_exact (s : Bytes) (fuel : Nat) (h : s.length ≤ fuel) :
+    Script.parseOps fuel s = Script.parse s ∧
+      s = Script.serializeOps (Script.parse s).1 ++ (Script.parse s).2 ∧
+      Script.getOp (Script.parse s).2 = none ∧ (Script.parse s).1.length ≤ s.length := by
+  have e : ∀ f, Script.parseOps f s = many Script.getOp f s := fun f => Script.parseOps_eq_many f s
+  have hf := many_fuel _ Script.getOp_consuming s fuel h
+  have hs := many_stops _ Script.getOp_consuming s.length s (Nat.le_refl _)
+  have hl := many_length _ Script.getOp_consuming s.length s
+  refine ⟨?_, Script.parseOps_exact _ s, ?_, ?_⟩
+  · rw [Script.parse, e, e, hf]; rfl
+  · rw [Script.parse, e]; exact hs
+  · rw [Script.parse, e]; omega
+
+example : (Script.parse [0x51, 2, 7, 8, 0x4c, 5, 1]).1.length = 2 ∧
+    (Script.parse [0x51, 2, 7, 8, 0x4c, 5, 1]).2 = [0x4c, 5, 1] := by decide
+
+/-- PSBT map layer (`deserialize_map`): the record loop's fuel `len(bytes) + 1` always suffices. -/
+theorem psbt_map_fuel_suffices (b : Bytes) (seen : List Bytes) (fuel : Nat) (h : b.length + 1 ≤ fuel) :
+    Psbt.parseRecs fuel b seen = Psbt.parseRecs (b.length + 1) b seen := by
+  obtain ⟨k, rfl⟩ := Nat.exists_eq_add_of_le h
+  exact Psbt.parseRecs_add b seen k
+
+/-- … and what it accepts is exactly its records and the closing `00`: the rest is a proper suffix,
+    and there are fewer records than bytes read. -/
+theorem psbt_map_reads_exactly (b : Bytes) (recs : List Psbt.Rec) (rest : Bytes)
+    (hp : Psbt.parseMap b = .ok (recs, rest)) :
+    b = Psbt.serMap recs ++ rest ∧ recs.length + rest.length < b.length := by
+  obtain ⟨_, hb⟩ := Psbt.serMap_parseMap b recs rest hp
+  refine ⟨hb, ?_⟩
+  have := Psbt.serList_length_ge recs
+  have hl := congrArg List.length hb
+  simp only [Psbt.serMap, List.length_append, List.length_cons, List.length_nil] at hl
+  omega
+
+/-- the nested grammar (`descriptors._parse_tree`: a leaf, or `{TREE,TREE}`), for any leaf parser that
+    makes progress: the fuel `len(text) + 1` always suffices — more fuel never changes the answer. -/
+theorem tree_fuel_suffices {σ α : Type} [DecidableEq σ] (d : Delims σ) (m : Nat) (leaf : Step σ α)
+    (hc : Fuel.Consuming leaf) (depth : Nat) (s : List σ) (fuel : Nat) (h : s.length + 1 ≤ fuel) :
+    parseTree d m leaf fuel depth s = parseTree d m leaf (s.length + 1) depth s := by
+  obtain ⟨k, rfl⟩ := Nat.exists_eq_add_of_le h
+  exact parseTree_add d m leaf hc depth s k
+
+/-- … what it accepts is exactly the written form of the tree it returns followed by the rest, … -/
+theorem tree_reads_exactly {σ α : Type} [DecidableEq σ] (d : Delims σ) (m : Nat) (leaf : Step σ α)
+    (pl : α → List σ) (hl : ∀ s x rest, leaf s = some (x, rest) → s = pl x ++ rest)
+    (hc : Fuel.Consuming leaf) (fuel depth : Nat) (s : List σ) (t : Tree α) (rest : List σ)
+    (hp : parseTree d m leaf fuel depth s = some (t, rest)) :
+    s = printTree d pl t ++ rest ∧ rest.length < s.length :=
+  ⟨parseTree_print d m leaf pl hl fuel depth s t rest hp, parseTree_consumes d m leaf hc fuel depth s t rest hp⟩
+
+/-- … and the recursion is bounded by the GENERATED depth limit whatever the input: a tree accepted
+    by the `tr()` grammar nests at most `MAX_TREE_DEPTH` braces, so the descent is never more than
+    `MAX_TREE_DEPTH + 1` frames deep (far below the interpreter's limit). -/
+theorem tree_depth_bounded (s : List Char) (t : Tree Char) (h : parseLetters s = some t) :
+    t.depth ≤ Gen.Limits.MAX_TREE_DEPTH := by
+  unfold parseLetters parseTreeAll at h
+  split at h
+  · rename_i t' hp
+    cases h
+    have := parseTree_depth braces Gen.Limits.MAX_TREE_DEPTH letterLeaf _ 0 s _ _ hp
+    omega
+  · cases h
+
+example : parseLetters "{a,{b,c}}".toList = some (.node (.leaf 'a') (.node (.leaf 'b') (.leaf 'c'))) := by
+  decide
+example : parseLetters "{a,{b,c}".toList = none ∧ parseLetters "{a,b}c".toList = none
+    ∧ parseLetters "{a}".toList = none ∧ parseLetters "".toList = none := by decide
+/-- the depth guard itself: with the bound at 2, three levels of braces are refused. -/
+example : parseTreeAll braces 2 letterLeaf "{a,{b,c}}".toList = some (.node (.leaf 'a') (.node (.leaf 'b') (.leaf 'c')))
+    ∧ parseTreeAll braces 2 letterLeaf "{a,{b,{c,d}}}".toList = none := by decide
+
+/-! ## T2 — consumers are total on what the parsers accept -/
+
+/-- any transaction `Tx.parse` accepts can be handed to every model consumer: both sizes are the
+    lengths of both serializations, weight and vsize are the formula, the stripped serialization (what
+    `id` hashes) is itself a well-formed transaction, and the serialization parses back to it. -/
+theorem accepted_tx_is_consumable (b : Bytes) (t : Tx) (rest : Bytes) (hp : Tx.parse b = .ok (t, rest)) :
+    (∀ w, Tx.size w t = (Tx.ser w t).length) ∧
+    Tx.weight t = 3 * (Tx.ser false t).length + (Tx.ser true t).length ∧
+    Tx.parse (Tx.ser false t) = .ok (t.strip, []) ∧ Tx.parse (Tx.ser true t) = .ok (t, []) := by
+  obtain ⟨hv, _⟩ := tx_ser_parse b t rest hp
+  refine ⟨fun w => tx_size_eq w t hv, ?_, ?_, ?_⟩
+  · simp only [Tx.weight, tx_size_eq _ t hv]
+  · simpa using tx_parse_ser_stripped t [] hv
+  · simpa using tx_parse_ser t [] hv
+
+/-- any block `Block.parse` accepts holds only transactions that are consumable in the same sense,
+    and a header of exactly the generated header length. -/
+theorem accepted_block_is_consumable (b : Bytes) (bl : Block) (rest : Bytes)
+    (hp : block.parse b = .ok (bl, rest)) :
+    (∀ t ∈ bl.txs, Tx.Valid t) ∧ (blockHeader.ser bl.header).length = Gen.Wire.HEADER_LENGTH
+      ∧ bl.txs.length ≤ Gen.Wire.MAX_BLOCK_TX_COUNT := by
+  obtain ⟨hv, _⟩ := lawful_block.ser_parse b bl rest hp
+  simp only [block, Codec.map, pair] at hv
+  obtain ⟨⟨hh, hl⟩, _⟩ := hv
+  rw [listOf_valid] at hl
+  exact ⟨hl.2, blockHeader_length _ hh, hl.1.1⟩
+
+/-! ## T3 — bounded allocation -/
+
+/-- every CompactSize read that carries a cap of its own (found by walking the whole package) is
+    bounded by the default cap `var_int.MAX_SIZE`; the transaction caps are the largest counts whose
+    smallest items still fit in a block; and the caps at the call sites of the modelled parsers are
+    those limits. -/
+theorem generated_limits_are_consistent :
+    (∀ r ∈ Gen.Limits.countCaps, r.2.2 ≤ Gen.Limits.MAX_SIZE) ∧
+    Gen.Limits.MAX_TX_IN_COUNT * (Gen.Limits.MIN_TX_IN_SIZE * Gen.Limits.WITNESS_SCALE_FACTOR)
+      ≤ Gen.Limits.MAX_BLOCK_WEIGHT ∧
+    Gen.Limits.MAX_BLOCK_WEIGHT
+      < (Gen.Limits.MAX_TX_IN_COUNT + 1) * (Gen.Limits.MIN_TX_IN_SIZE * Gen.Limits.WITNESS_SCALE_FACTOR) ∧
+    Gen.Limits.MAX_TX_OUT_COUNT * (Gen.Limits.MIN_TX_OUT_SIZE * Gen.Limits.WITNESS_SCALE_FACTOR)
+      ≤ Gen.Limits.MAX_BLOCK_WEIGHT ∧
+    Gen.Limits.MAX_BLOCK_WEIGHT
+      < (Gen.Limits.MAX_TX_OUT_COUNT + 1) * (Gen.Limits.MIN_TX_OUT_SIZE * Gen.Limits.WITNESS_SCALE_FACTOR) ∧
+    Gen.Wire.MAX_TX_IN_COUNT = Gen.Limits.MAX_TX_IN_COUNT ∧
+    Gen.Wire.MAX_TX_OUT_COUNT = Gen.Limits.MAX_TX_OUT_COUNT ∧
+    Gen.Wire.MAX_WITNESS_STACK_ITEMS = Gen.Limits.MAX_WITNESS_STACK_ITEMS ∧
+    Gen.Wire.MAX_BLOCK_TX_COUNT * Gen.Limits.MIN_SERIALIZABLE_TRANSACTION_WEIGHT ≤ Gen.Limits.MAX_BLOCK_WEIGHT ∧
+    Gen.VarInt.MAX_SIZE = Gen.Limits.MAX_SIZE ∧ Gen.Limits.MAX_TREE_DEPTH < 1000 := by
+  decide
+
+/-- a count above the cap of its call site is refused as "too big" BEFORE any item is read: the
+    answer does not depend on the item parser at all. -/
+theorem count_above_cap_is_refused_before_items {α : Type} (m : Nat) (c : Codec α) (b : Bytes)
+    (M n : Nat) (rest : Bytes) (h : VarInt.parse b M = .ok (n, rest)) (hn : n > m) :
+    (listOf m c).parse b = .error .toobig :=
+  listOf_rejects_above_cap m c b M n rest h hn
+
+/-- `fd 47 5f` is 24391 = MAX_TX_IN_COUNT + 1: refused as an input count, whatever follows. -/
+example : vinC.parse ([0xfd, 0x47, 0x5f] ++ List.replicate 50 0) = .error .toobig := by decide
+
+/-- a count-prefixed list that is accepted holds at most `cap` items and FEWER ITEMS THAN BYTES were
+    given: a parser never builds more than its input pays for. -/
+theorem accepted_list_is_bounded {α : Type} (m : Nat) (c : Codec α) (hl : Lawful c) (hn : NonEmpty c)
+    (b : Bytes) (l : List α) (rest : Bytes) (hp : (listOf m c).parse b = .ok (l, rest)) :
+    l.length ≤ m ∧ l.length + rest.length < b.length :=
+  listOf_bounds m hl hn b l rest hp
+
+/-- for transactions: input, output and witness item counts are within the generated limits, and the
+    whole object is as large as the bytes read (so every list in it is shorter than the input). -/
+theorem accepted_tx_is_bounded (b : Bytes) (t : Tx) (rest : Bytes) (hp : Tx.parse b = .ok (t, rest)) :
+    t.vin.length ≤ Gen.Limits.MAX_TX_IN_COUNT ∧ t.vout.length ≤ Gen.Limits.MAX_TX_OUT_COUNT ∧
+    (∀ i ∈ t.vin, i.witness.length ≤ Gen.Limits.MAX_WITNESS_STACK_ITEMS) ∧
+    Tx.size true t + rest.length = b.length := by
+  obtain ⟨hv, hb, hs⟩ := lawful_tx.consumed b t rest hp
+  obtain ⟨_, _, hvin, hvout, hw, _⟩ := hv
+  rw [vinC, listOf_valid] at hvin
+  rw [voutC, listOf_valid] at hvout
+  refine ⟨(by simpa using hvin.1.1 : t.vin.length ≤ Gen.Wire.MAX_TX_IN_COUNT), hvout.1.1, ?_, hs⟩
+  intro i hi
+  have := hw i hi
+  rw [witness, listOf_valid] at this
+  exact this.1.1
+
+/-- the generic count-prefixed model (`Btc.Fuel.counted`), for any item parser: above the cap nothing
+    is read; what is accepted has at most `cap` items and no more items than bytes. -/
+theorem counted_model_is_bounded {α : Type} (cap : Nat) (item : Step UInt8 α) (hc : Fuel.Consuming item)
+    (b : Bytes) :
+    (∀ n rest, VarInt.parse b Gen.Limits.MAX_SIZE = .ok (n, rest) → n > cap →
+      counted cap item b = .error .tooMany) ∧
+    (∀ xs r, counted cap item b = .ok (xs, r) → xs.length ≤ cap ∧ xs.length + r.length ≤ b.length) :=
+  ⟨fun n rest h hn => counted_tooMany cap item b rest n h hn, fun xs r h => counted_bounds cap item hc b xs r h⟩
+
+example : counted 2 (fun s => match s with | x :: r => some (x, r) | [] => none) [3, 7, 8, 9]
+    = .error .tooMany := by decide
+example : counted 3 (fun s => match s with | x :: r => some (x, r) | [] => none) [3, 7, 8, 9, 1]
+    = .ok ([7, 8, 9], [1]) := by decide
 
 end Props.C19
